@@ -29,8 +29,11 @@ ShapeArgs == { t \in {"fn", "cls"} \X (0..2) \X (0..2) \X BOOLEAN \X BOOLEAN \X 
 Shapes == { Shape(t[1], t[2], t[3], t[4], t[5], t[6], t[7]) : t \in ShapeArgs }
 
 \* one descriptor is registered per behaviour
-ShapeQuick == { Shape("fn", 2, 1, TRUE, FALSE, FALSE, FALSE), Shape("cls", 2, 1, TRUE, TRUE, TRUE, TRUE),
-                Shape("fn", 1, 0, FALSE, FALSE, TRUE, FALSE), Shape("cls", 2, 2, FALSE, FALSE, FALSE, TRUE) }
+ShapeQuick == { Shape("fn", 2, 1, TRUE, FALSE, FALSE, FALSE), Shape("cls", 1, 1, TRUE, TRUE, TRUE, TRUE) }
+ShapeMid == { Shape("fn", 2, 1, TRUE, FALSE, FALSE, FALSE), Shape("cls", 2, 1, TRUE, TRUE, TRUE, TRUE),
+              Shape("fn", 1, 0, FALSE, FALSE, TRUE, FALSE), Shape("cls", 2, 2, FALSE, FALSE, FALSE, TRUE),
+              Shape("fn", 2, 0, FALSE, FALSE, FALSE, TRUE), Shape("cls", 0, 0, TRUE, FALSE, TRUE, FALSE) }
+MidRegs == { {c} : c \in ShapeMid }
 
 OneShapeRegs == { {c} : c \in Shapes }
 QuickRegs == { {c} : c \in ShapeQuick }
